@@ -68,7 +68,7 @@ func quotedPieces(f *ssa.Function, parts ssa.Value, before ssa.Instruction) (src
 		if st == nil {
 			continue
 		}
-		hit, _ := eng.Search(f, l.Body.Instrs[0], nil, func(in ssa.Instruction) bool { return in == ssa.Instruction(st) }, func(in ssa.Instruction) bool { return in.Block() == l.Header || eng.IsReturn(in) })
+		hit, _ := eng.SearchBlock(f, l.Body, nil, func(in ssa.Instruction) bool { return in == ssa.Instruction(st) }, func(in ssa.Instruction) bool { return in.Block() == l.Header || eng.IsReturn(in) })
 		if l.Body.Instrs[0] == ssa.Instruction(st) {
 			hit = nil
 		}
@@ -160,7 +160,7 @@ func analyzeGlobHelper(f *ssa.Function) (*globHelper, string) {
 			h.sep, h.quotedOK, h.quotedDetail = sep, okq, det
 			if src != nil && l.ElemOf(eng.OriginConv(src)) {
 				// every iteration stores its alternative
-				hit, _ := eng.Search(f, l.Body.Instrs[0], nil, func(x ssa.Instruction) bool { return x == in }, func(x ssa.Instruction) bool { return x.Block() == l.Header || eng.IsReturn(x) })
+				hit, _ := eng.SearchBlock(f, l.Body, nil, func(x ssa.Instruction) bool { return x == in }, func(x ssa.Instruction) bool { return x.Block() == l.Header || eng.IsReturn(x) })
 				if hit == nil && l.Done.Dominates(jn.Block()) {
 					h.everyPattern = true
 				} else {
